@@ -60,6 +60,8 @@ func runCmd(args []string) {
 	budget := fs.Duration("budget", 10*time.Minute, "")
 	solver := fs.String("solver", "z3", "")
 	tier := fs.String("tier", "quick", "")
+	smtlog := fs.String("smtlog", "", "")
+	opts := fs.String("opt", "", "k=v,k=v harness options")
 	fs.Parse(args)
 	t0 := time.Now()
 	e, err := loadEngine(*repo, *verif)
@@ -69,13 +71,18 @@ func runCmd(args []string) {
 	}
 	defer e.Cleanup()
 	e.Tier = *tier
+	for _, kv := range strings.Split(*opts, ",") {
+		if i := strings.Index(kv, "="); i > 0 {
+			e.Opts[kv[:i]] = kv[i+1:]
+		}
+	}
 	fmt.Printf("loaded in %.1fs\n", time.Since(t0).Seconds())
 	for _, name := range fs.Args() {
 		var found bool
 		for _, sp := range e.SSA {
 			if fn := sp.Func(name); fn != nil {
 				found = true
-				x := &engine.Explorer{E: e, Harness: fn, MaxPaths: *maxPaths, Deadline: time.Now().Add(*budget), Workers: *workers, SolverKind: *solver, TimeoutMs: 30000, Known: map[string]bool{}}
+				x := &engine.Explorer{E: e, Harness: fn, MaxPaths: *maxPaths, Deadline: time.Now().Add(*budget), Workers: *workers, SolverKind: *solver, TimeoutMs: 30000, Known: map[string]bool{}, SMTLog: *smtlog}
 				r := x.Run()
 				fmt.Print(r.Summary())
 			}
@@ -86,4 +93,4 @@ func runCmd(args []string) {
 	}
 }
 
-func checkCmd(args []string) { fmt.Println("not yet") }
+
